@@ -99,6 +99,22 @@ def run(args):
         view, vdesc = rand_view(mod, rng, kind)
         keys = node_keys(mod)
         key = str(rng.choice(keys))
+        if t in (1, 2, 4):
+            # deterministic battery (independent of the random stream): one parameter PER BRANCH on branches of unequal size that do not
+            # include the module's last rows — padded index groups whose padding must not hit any row
+            comp_ = jx.Compartment()
+            ncs_ = [[2, 3, 1, 2], [1, 3, 2, 2, 1], [3, 1, 2]][(1, 2, 4).index(t)]
+            mod = jx.Cell([jx.Branch([comp_] * k_) for k_ in ncs_], parents=[-1] + [0] * (len(ncs_) - 1))
+            mod.insert(HH())
+            n = mod.nodes.shape[0]
+            mod.set("radius", rng.uniform(0.5, 3.0, n)); mod.set("length", rng.uniform(5.0, 40.0, n)); mod.set("v", rng.uniform(-72.0, -60.0, n))
+            desc = dict(kind="cell", parents=[-1] + [0] * (len(ncs_) - 1), ncomp=ncs_, channels=["HH"], battery="padded-groups")
+            kind = "cell"
+            view = mod.scope("global").branch([0, 1]).scope("local").branch("all")
+            vdesc = dict(how="branch-all", idx=[0, 1])
+            keys = node_keys(mod)
+            key = ["radius", "HH_gNa", "capacitance"][(1, 2, 4).index(t)]
+            R.count("battery:padded-groups")
         rows_in_view = [int(x) for x in view._nodes_in_view]
         holds = [r for r in rows_in_view if not (isinstance(mod.nodes.loc[r, key], float) and math.isnan(mod.nodes.loc[r, key]))]
         inp = dict(module=desc, view=vdesc, key=key)
@@ -243,6 +259,8 @@ def rebuild_view(mod, vdesc):
     how = vdesc["how"]
     if how == "branch":
         return mod.scope("global").branch(vdesc["idx"]).scope("local")
+    if how == "branch-all":
+        return mod.scope("global").branch(vdesc["idx"]).scope("local").branch("all")
     if how == "comp":
         return mod.scope("global").comp(vdesc["idx"]).scope("local")
     if how == "cell":
